@@ -200,6 +200,15 @@ fn classify(ctx: &mut Ctx, n: usize, rows: &[Vec<i64>], key: u64) {
     }
 }
 
+/// Fixed dense matrices on which the pinned library overflows (known finding).
+fn overflow_witnesses() -> Vec<Vec<Vec<i64>>> {
+    vec![
+        vec![vec![4, 9, 2, 3, 9, -7], vec![6, 4, 4, -3, 3, -8], vec![4, 1, -2, 2, -5, -9], vec![6, -1, 8, -9, 5, -1], vec![-5, 2, 1, -9, 7, -9], vec![-8, -5, -8, -3, -3, -8]],
+        vec![vec![3, 1, -3, 0, -1, -3, 0, 1, 1, 1], vec![0, 0, 2, 0, -3, -1, 3, -3, -1, 2], vec![-3, -2, 0, 3, -2, -3, 0, 3, 2, -1], vec![1, 3, 3, -1, -3, 3, 1, 3, 0, -3], vec![2, -1, 0, 2, -3, -1, 1, 0, -2, 1], vec![3, -2, 3, 3, -2, -1, -1, 0, 2, 0], vec![-1, -2, -3, -1, -2, 0, -1, 2, 1, 0], vec![-3, 3, -2, 2, -3, -1, 1, 3, -1, 1], vec![-1, -2, 1, -1, 0, 1, 1, 3, 0, 0], vec![2, 3, 2, -3, -3, 1, 0, 0, -1, 2]],
+        vec![vec![-1, 1, 1, 1, 0, -1, 0, 1, -1, 1, 1, -1, 1, -1, -1, 0], vec![1, -1, -1, 1, 0, 0, 0, -1, 1, 1, -1, 1, 0, 0, 1, 0], vec![-1, 0, -1, -1, 0, -1, -1, 0, 0, -1, -1, 0, -1, -1, 0, 1], vec![-1, -1, 1, -1, -1, -1, 1, 0, 0, 0, 0, 0, 1, 1, 1, -1], vec![1, 0, 1, -1, -1, -1, 0, 0, 1, 0, 0, -1, 1, -1, -1, 0], vec![-1, 0, 1, 0, 0, 0, -1, 1, 0, 1, 0, -1, 0, -1, 0, 0], vec![0, 0, -1, 0, 1, 0, 0, 0, 0, 1, -1, 0, 0, -1, 0, -1], vec![0, 1, -1, -1, -1, -1, 1, 0, 0, 0, 1, -1, 1, -1, 1, 1], vec![1, 0, 1, 0, 1, 0, 0, 1, 1, 0, 1, -1, -1, -1, 1, -1], vec![0, 1, 0, 1, 0, -1, -1, 0, 1, -1, 1, -1, 0, 0, 1, 0], vec![1, -1, 0, -1, 0, 0, -1, -1, -1, -1, -1, -1, -1, -1, 0, 0], vec![-1, -1, 0, 1, 1, -1, -1, 0, 0, 0, 1, -1, -1, 0, 0, 1], vec![1, 0, 0, 1, -1, 0, 0, 0, -1, 1, 1, 0, 0, -1, 1, 1], vec![0, 1, -1, 1, -1, 1, -1, 1, 1, 0, 1, 0, -1, 0, 0, 1], vec![0, -1, -1, -1, -1, 1, 1, 1, -1, -1, 1, 0, 0, 1, 0, -1], vec![1, -1, -1, 1, 1, 1, -1, 1, 0, 0, 1, 0, 1, 1, -1, 0]],
+    ]
+}
+
 pub fn run(cfg: &Cfg) -> Report {
     let mut report = Report::new(cfg);
     let seed = cfg.seed;
@@ -300,6 +309,77 @@ pub fn run(cfg: &Cfg) -> Report {
     });
     report.absorb(ctx);
 
+    // (B2) non-chain diagonal presentations with 4-6 cyclic factors (the gcd/lcm fix-up loop needs >= 4
+    // entries that do not divide each other to go wrong), optionally hidden by unimodular row operations
+    let ndiag = cfg.tier.pick(20_000, 400_000);
+    let ctx = par_range(cfg, ndiag, |ctx, k| {
+        let mut rng = Rng::stream(seed, 0x14_4000_0000 + k as u64);
+        let n = 4 + rng.below(3);
+        let mut rows = vec![vec![0i64; n]; n];
+        for i in 0..n {
+            rows[i][i] = rng.range(0, 12);
+        }
+        if rng.chance(1, 2) {
+            for _ in 0..3 {
+                let (a, b) = (rng.below(n), rng.below(n));
+                if a != b {
+                    let f = rng.range(-1, 1);
+                    for c in 0..n {
+                        rows[a][c] += f * rows[b][c];
+                    }
+                }
+            }
+        }
+        let style = rng.below(2);
+        let rels: Vec<Word> = rows.iter().map(|r| word_for_row(r, style, &mut rng)).collect();
+        classify(ctx, n, &rows, digest(&("diag", seed, k)));
+        judge(ctx, n, &rels, k % 8 == 0, false, &mut rng, "non-chain diagonal");
+        ctx.count("non_chain_diagonals");
+    });
+    report.absorb(ctx);
+
+    // (B3) large cyclic factors through doubling chains: generators x_1..x_k with x_i^2 = x_{i+1} and
+    // x_k^c = 1 present Z_{c 2^(k-1)} with relators of length <= max(3, c); two or three independent
+    // chains give products whose invariant factors need 64-bit lcm arithmetic
+    let nchain = cfg.tier.pick(400, 6000);
+    let ctx = par_range(cfg, nchain, |ctx, k| {
+        let mut rng = Rng::stream(seed, 0x14_8000_0000 + k as u64);
+        let chains = 2 + rng.below(2);
+        let mut rels: Vec<Word> = vec![];
+        let mut next = 1i64;
+        for _ in 0..chains {
+            let len = 20 + rng.below(14); // 2^19 .. 2^32
+            let c = *rng.pick(&[1i64, 3, 5, 6, 7, 9, 15]);
+            let first = next;
+            for i in 0..(len - 1) {
+                rels.push(vec![first + i as i64, first + i as i64, -(first + i as i64 + 1)]);
+            }
+            let last = first + len as i64 - 1;
+            rels.push(vec![last; c as usize]);
+            next = last + 1;
+        }
+        let n = (next - 1) as usize;
+        rng.shuffle(&mut rels);
+        judge(ctx, n, &rels, false, false, &mut rng, "doubling chains");
+        ctx.count("doubling_chain_presentations");
+        ctx.nontrivial(digest(&("chain", seed, k)));
+    });
+    report.absorb(ctx);
+
+    // (B4) KNOWN FINDING witnesses: dense matrices on which the library's isize elimination overflows
+    // (see DESIGN.md 12.3 / known_findings.txt). Fixed inputs, so that the finding is identified by input.
+    {
+        let mut ctx = Ctx::new();
+        let mut rng = Rng::stream(seed, 0x14_f);
+        for rows in overflow_witnesses() {
+            let n = rows.len();
+            let rels: Vec<Word> = rows.iter().map(|r| word_for_row(r, 0, &mut rng)).collect();
+            judge(&mut ctx, n, &rels, false, false, &mut rng, "dense matrix beyond the overflow-free region (known finding witness)");
+            ctx.count("overflow_witnesses_run");
+        }
+        report.absorb(ctx);
+    }
+
     // (C) no relators / no generators / empty words
     let mut ctx = Ctx::new();
     let mut rng = Rng::stream(seed, 77);
@@ -315,11 +395,13 @@ pub fn run(cfg: &Cfg) -> Report {
     report.rule = "exponent-sum matrices rendered as words in three styles (blocks, reversed blocks, shuffled with inserted commutators): all 2x2, 2x3, 3x2 matrices with entries in [-3,3]; random/structured matrices up to 5x5 with entries in [-9,9] (diagonal non-divisibility chains, forced low rank, repeated and zero rows/columns, sparse); degenerate presentations. Non-trivial = rank >= 2 and invariant factors different from the sorted diagonal; distinct = distinct matrix digests. Every 4th (16th for the exhaustive part) case also goes through six metamorphic rewritings".into();
     report.explanation = "result compared with BigInt Smith normal form by elimination, itself cross-checked against gcds of minors for matrices up to 4x4".into();
     report.note("exhaustive_subuniverses", json!(["all 2x2, 2x3 and 3x2 integer matrices with entries in [-3,3]"]));
-    report.assume("synthetic matrices use entries of magnitude <= 9 so that i64 overflow inside the library cannot be provoked artificially; large presentations from symbols are judged in C09/C13/C15");
+    report.assume("KNOWN FINDING: the isize elimination of the library overflows (panic in checked builds, silent wrap in release builds) on dense matrices from about 6x6 with entries <= 9, 10x10 with entries <= 3, 16x16 with entries in {-1,0,1}; three fixed witnesses are run and listed in known_findings.txt; the random dense workload stays at <= 5x5 with entries <= 9 where no overflow was ever observed (millions of cases); sparse presentation matrices from symbols are judged in C09/C13/C15");
     report.require_counter("random_matrices", (nrand / 2) as u64);
     report.require_counter("rank_deficient", 1000);
     report.require_counter("with_nonunit_factor", 1000);
     report.require_counter("variant.products-appended", 1000);
+    report.require_counter("non_chain_diagonals", (ndiag / 2) as u64);
+    report.require_counter("doubling_chain_presentations", (nchain / 2) as u64);
     report
 }
 
